@@ -44,3 +44,10 @@ def register_all(reg):
     reg("C29", "seqx", "exploration", "bounded-exhaustive input enumeration against a reference cartesian product",
         "All batch parameter definitions with 0-3 (quick) / 0-4 (thorough) parameters over a 21-spec menu (scalars, lists, one-level nested dicts) are expanded by the real regularize_parameters/parameters_configuration and rendered by build_option_for_parameters; the expansion must equal the reference product exactly once, be identical under every rewriting of the definition and under other hash seeds, and render each chosen value exactly once.",
         "Empty lists, None/bool/'' values and dicts nested deeper than one level are outside the alphabet. " + E2_NOTE, "DESIGN.md 3 C29")
+
+    reg("C12", "seqx", "exploration", "bounded-exhaustive input enumeration vs dict reference model",
+        "All matrix relations over 0-3 (quick) / 0-4 (thorough) small-domain variables with tables from {0,1,-3,2.5,2^31,+-2^40,inf} (full/two-entry/one-hot families): every set_value (list/dict/reversed dict), every projection (each variable, min/max) and every join over 20-24 scope pairs is read back on every assignment against Python sum/min/max.",
+        "Dimension order of join/projection results is not judged (scopes are sets in the property); operands are NAryMatrixRelation only. " + E2_NOTE, "DESIGN.md 3 C12")
+    reg("C30", "seqx", "exploration", "bounded-exhaustive generator arguments with every random answer enumerated (injected random graphs, scripted draws)",
+        "Graph-colouring, Ising and scenario generators are run on every small argument combination with all random graphs on <=4 nodes, all Barabasi-Albert/shuffle answers, scripted randint/uniform vectors and every random.sample answer injected; constraints<->edges, hard/soft tables, Ising form agreement, hosting-exactly-once and removal bookkeeping are checked against a reference model.",
+        "Colouring constraint graph compared up to renaming; the hard penalty only has to be one positive constant; beyond 8 soft draws a 4-pattern family is used. " + E2_NOTE, "DESIGN.md 3 C30")
